@@ -444,6 +444,9 @@ def gen_circular(seed, t):
     cells to override so that every cycle holds a constant."""
     from ..cyc import Graph
     rng, sw = Rng(seed, 'circ/world'), Rng(seed, 'circ/swarm')
+    # a third of these worlds also has cycles through IF / IFERROR branches,
+    # which the library cuts statically (see F-C07-9 in KNOWN_FINDINGS.txt)
+    lazy = sw.chance(.35)
     prof = profile(
         win=t['win'], max_cells=t['max_cells'], min_cells=3,
         max_books=sw.pick([1, 1, 2]), max_sheets=sw.pick([1, 2]),
@@ -451,7 +454,9 @@ def gen_circular(seed, t):
         p_err=0, p_frac=0, p_formula=.8, depth=sw.pick([1, 2, 2]),
         p_back=sw.pick([.25, .4, .6]),
         w_ref=5, w_num=1, w_op=4, w_aggr=sw.pick([0, 3]),
-        w_if=0, w_iferror=0, w_iserror=0, w_name=1.5, w_ifs=0, w_ifna=0,
+        w_if=sw.pick([3, 5]) if lazy else 0,
+        w_iferror=sw.pick([0, 2]) if lazy else 0, w_iserror=0, w_name=1.5,
+        w_ifs=0, w_ifna=0,
     )
     world = gen_world(rng, prof)
     G = Graph(world)
@@ -828,7 +833,15 @@ def execute(trace, env=None):
     if blanky:
         stats['observed_with_blank_override'] = stats.get(
             'observed_with_blank_override', 0) + 1
-    if not outs:
+    acyclic = True
+    if s.get('circular'):
+        # the fixed point is the oracle only if the overridden cells, taken
+        # as constants, leave no cycle (a shrunk trace may have lost them)
+        from ..cyc import Graph
+        acyclic = all(set(cy) & set(pinned_cells)
+                      for cy in Graph(world).cycles())
+        stats['circular_observed'] = stats.get('circular_observed', 0) + 1
+    if not outs and acyclic:
         # dependents are judged on the *observed* values of the overridden
         # cells and the overridden cells themselves against the supplied
         # values.  When the override also covers BLANK positions, formulas
@@ -959,6 +972,19 @@ def signature(trace, v):
     sig6 = chained_name_value_signature(trace, v)
     if sig6:
         return sig6
+    if trace['schedule'].get('circular') and v['clause'] == 'C07.exact' and \
+            isinstance(v.get('cell'), int):
+        # F-C07-9: the cell (or a cell it depends on) reads a cell of one of
+        # its cycles inside an IF / IFERROR branch - that edge may have been
+        # cut for good when the model was finished
+        G = Graph(world)
+        cut = set()
+        for cyc in G.cycles():
+            for u, w_ in G.cycle_edges(cyc):
+                if any(o['conds'] for o in G.edge[u][w_]):
+                    cut.add(u)
+        if G.reach(v['cell']) & cut:
+            return 'C07.exact/static-cut-of-a-branch-on-a-cycle'
     cov = covered_formula_cells(world, trace['observed']['inputs'])
     if not cov:
         return None
